@@ -11,6 +11,7 @@
 #include <map>
 #include <pthread.h>
 #include <semaphore.h>
+#include <unistd.h>
 #include <unordered_map>
 
 #include "../core/rng.hpp"
@@ -735,6 +736,96 @@ void __wrap___cxa_guard_abort(long long *g)
     s.owner = -1;
     wake_blocked_on(g);
 }
+// ---- reader/writer locks: modelled as a lock with a reader count
+int __real_pthread_rwlock_rdlock(pthread_rwlock_t *);
+int __real_pthread_rwlock_wrlock(pthread_rwlock_t *);
+int __real_pthread_rwlock_unlock(pthread_rwlock_t *);
+int __real_pthread_rwlock_tryrdlock(pthread_rwlock_t *);
+int __real_pthread_rwlock_trywrlock(pthread_rwlock_t *);
+static int rw_acquire(pthread_rwlock_t *l, bool write, bool try_only)
+{
+    InRt guard;
+    Task &t = g_tasks[tl_task];
+    ++g_stats->mutex_ops;
+    ++g_counter;
+    if (!try_only)
+        yield_point(t);
+    for (;;) {
+        SyncVar &s = (*g_sync)[l];
+        // state = number of readers; owner = writer task or -1
+        bool free_for_me = write ? (s.owner < 0 && s.state == 0) : (s.owner < 0);
+        if (free_for_me) {
+            if (write)
+                s.owner = t.id;
+            else
+                ++s.state;
+            if (s.has)
+                t.vc.join(s.vc);
+            return 0;
+        }
+        if (try_only)
+            return 16; // EBUSY
+        t.state = T_BLOCKED;
+        t.blocked_on = l;
+        relinquish(t, true);
+    }
+}
+int __wrap_pthread_rwlock_rdlock(pthread_rwlock_t *l)
+{
+    if (tl_task < 0 || !g_parallel || tl_in_rt)
+        return __real_pthread_rwlock_rdlock(l);
+    return rw_acquire(l, false, false);
+}
+int __wrap_pthread_rwlock_wrlock(pthread_rwlock_t *l)
+{
+    if (tl_task < 0 || !g_parallel || tl_in_rt)
+        return __real_pthread_rwlock_wrlock(l);
+    return rw_acquire(l, true, false);
+}
+int __wrap_pthread_rwlock_tryrdlock(pthread_rwlock_t *l)
+{
+    if (tl_task < 0 || !g_parallel || tl_in_rt)
+        return __real_pthread_rwlock_tryrdlock(l);
+    return rw_acquire(l, false, true);
+}
+int __wrap_pthread_rwlock_trywrlock(pthread_rwlock_t *l)
+{
+    if (tl_task < 0 || !g_parallel || tl_in_rt)
+        return __real_pthread_rwlock_trywrlock(l);
+    return rw_acquire(l, true, true);
+}
+int __wrap_pthread_rwlock_unlock(pthread_rwlock_t *l)
+{
+    if (tl_task < 0 || !g_parallel || tl_in_rt)
+        return __real_pthread_rwlock_unlock(l);
+    InRt guard;
+    Task &t = g_tasks[tl_task];
+    ++g_stats->mutex_ops;
+    SyncVar &s = (*g_sync)[l];
+    if (s.owner == t.id)
+        s.owner = -1;
+    else if (s.state > 0)
+        --s.state;
+    s.vc.join(t.vc);
+    s.has = true;
+    ++t.vc.c[t.id];
+    wake_blocked_on(l);
+    ++g_counter;
+    yield_point(t);
+    return 0;
+}
+// ---- primitives the runtime does not model: say so instead of hanging or guessing
+int __real_pthread_cond_wait(pthread_cond_t *, pthread_mutex_t *);
+int __wrap_pthread_cond_wait(pthread_cond_t *c, pthread_mutex_t *m)
+{
+    if (tl_task < 0 || !g_parallel || tl_in_rt)
+        return __real_pthread_cond_wait(c, m);
+    static const char msg[] = "UNMODELLED pthread_cond_wait inside a task: the thread simulator does not model condition variables\n";
+    ssize_t r = write(1, msg, sizeof msg - 1);
+    (void)r;
+    _exit(73);
+}
+
 int __wrap_pthread_once(pthread_once_t *o, void (*fn)(void))
 {
     if (tl_task < 0 || !g_parallel || tl_in_rt)
